@@ -248,6 +248,9 @@ class Interp:
             if v.key in self.assume:
                 r = self.assume[v.key]
                 return (not r) if v.negated else r
+            kn = self.known(v)
+            if kn is not None:
+                return kn
             if self.chooser is None:
                 raise AnalysisError(f"undecidable condition {v!r} at line {getattr(node, 'lineno', '?')}")
             c = self.chooser.choose(v.key)
@@ -261,6 +264,19 @@ class Interp:
         if isinstance(v, (Closure, Bound, ClassRef, Builtin, ExtRef, RepoMod, Partial)):
             return True
         raise AnalysisError(f"cannot decide truth of {v!r}")
+
+    def known(self, v):
+        """Truth value of a boolean formula all of whose leaves are assumed, else None."""
+        if isinstance(v, bool):
+            return v
+        if not isinstance(v, SymBool) or not self.assume:
+            return None
+        from .values import sb_eval, sb_leaves
+
+        leaves = sb_leaves(v)
+        if leaves and all(l in self.assume for l in leaves):
+            return sb_eval(v, self.assume)
+        return None
 
     def explore(self, thunk, limit=4096):
         """Run thunk under every resolution of unknown conditions.
